@@ -359,7 +359,7 @@ def run_job(job):
                 if v and not viol:
                     viol['v'] = (v, list(hist), obs)
             return fp, term, obs.get('pending', 0), out
-        r = bytestream.search(step)
+        r = bytestream.search(step, max_seconds=240)
         res['states'] |= {h64((tag, s)) for s in r['state_set']}
         res['transitions'] += r['transitions']
         for k in r['outcomes']:
